@@ -140,6 +140,13 @@ func verifUniverse(extra string) (*types.Package, []verifType) {
 	return pkg, out
 }
 
+// verifPickAnyType chooses from the whole universe in both tiers.
+func verifPickAnyType(name string, all []verifType) verifType {
+	i := vp.Choose(name, len(all))
+	vp.Fact(name+".id", i)
+	return all[i]
+}
+
 func verifPickType(name string, all []verifType) verifType {
 	if vp.Thorough() {
 		i := vp.Choose(name, len(all))
